@@ -159,22 +159,33 @@ def write_stream(run, drv, n_cases):
         n = rng.randint(1, 4)
         sd = rng.randint(0, len(bs))
         feats = rng.choice([G.FEATS_PLAIN, G.FEATS_PLAIN, G.FEATS_NESTED])
+        if rng.random() < 0.3:
+            # a feature dim as long as the member list: a value unbound along the wrong dim still "fits"
+            feats = [("a", (n,)), ("b", (2,))]
         full = list(bs)
         full.insert(sd, n)
         ix = G.gen_index_spec(rng, full, malformed=rng.random() < 0.08)
+        if sd >= 1 and rng.random() < 0.12:
+            ix = G.gen_index_mask_before(rng, bs, n, sd)      # num_squash != 0
         if G.has_dup_targets(ix):
             # duplicate targets: torch leaves the winner unspecified
             negs = True
         # normalised duplicates (e.g. -1 and n-1) are caught below through the dense oracle only
-        metas.append((bs, n, sd, feats, ix))
+        # `lazy[index] = tensordict` (__setitem__) or the same write key by key with tensors
+        # (`set_at_` -> _set_at_str / _set_at_tuple, the path `lazy[index] = tensor` takes too): the
+        # two functions repeat the same branches, the model (lazySet) transcribes both
+        how = "setitem" if rng.random() < 0.6 else "set_at_"
+        if sum(1 for i in ix if i[0] == "ell") > 1:
+            how = "setitem"      # malformed (two Ellipses): only the tensordict write sees the raw index
+        metas.append((bs, n, sd, feats, ix, how))
         fs = Raw("(feats" + "".join(" (" + " ".join([k] + [str(x) for x in f]) + ")" for k, f in feats) + ")")
         reqs.append(sx("c08.set", ["bs"] + list(bs), n, sd, fs, G.ixs_sx(ix)))
         reqs.append(sx("c08.split", ["bs"] + list(bs), n, sd, G.ixs_sx(ix)))
     answers = G.ask_all(drv, reqs)
-    for j, (bs, n, sd, feats, ix) in enumerate(metas):
+    for j, (bs, n, sd, feats, ix, how) in enumerate(metas):
         m_set = parse_sx(answers[2 * j])
         m_split = parse_sx(answers[2 * j + 1])
-        case = {"bs": list(bs), "n": n, "sd": sd, "feats": [k for k, _ in feats], "ix": ix}
+        case = {"bs": list(bs), "n": n, "sd": sd, "feats": [[k] + list(f) for k, f in feats], "ix": ix, "how": how}
         pos = G.adv_position(ix, sd)
         run.case(("set", bs, n, sd, str(ix)), nontrivial=len(ix) > 0)
         run.count("write.adv_position", pos)
@@ -193,17 +204,28 @@ def write_stream(run, drv, n_cases):
                 dr = None
             else:
                 value = G.mk_value(ibs, feats)
+                # the dense `set_at_` indexes the LEAF with the raw index: an Ellipsis would also span the
+                # feature dims (C03's business).  The key-by-key write gets the Ellipsis spelled out.
+                index_at = G.index_py(G.expand_ell(ix, len(bs) + 1)) if any(i[0] == "ell" for i in ix) else index
+
+                def write(x):
+                    if how == "setitem":
+                        x[index] = value.clone()
+                    else:
+                        for k, _ in feats:
+                            kk = tuple(k.split(".")) if "." in k else k
+                            x.set_at_(kk, value.get(kk).clone(), index_at)
                 try:
-                    L[index] = value.clone()
+                    write(L)
                     impl = G.members_canon(L, feats)
                 except Exception:  # noqa: BLE001
                     impl = ["err"]
                 try:
-                    dense[index] = value.clone()
+                    write(dense)
                     dr = dense
                 except Exception:  # noqa: BLE001
                     dr = None
-        run.count("write.outcome", impl[0])
+        run.count("write.outcome", how + ":" + impl[0])
         dup = False
         for it in ix:
             if it[0] == "tens":
@@ -229,7 +251,7 @@ def write_stream(run, drv, n_cases):
             except Exception as e:  # noqa: BLE001
                 diff = f"members can no longer be stacked: {type(e).__name__}"
             if diff and not G.has_dup_targets(ix):
-                run.oracle_fail("write", case, f"after lazy[index] = value the members differ from the dense stack after the same write: {diff}", f"write:{pos}:{G.ix_kinds(ix)}")
+                run.oracle_fail("write", case, f"after the write ({how}) the members differ from the dense stack after the same write: {diff}", f"write:{how}:{pos}:{G.ix_kinds(ix)}")
             else:
                 run.oracle_ok("write")
         else:
@@ -599,6 +621,71 @@ def two_level_stream(run, drv, n_cases):
             run.oracle_ok("two_level_raises")
 
 
+def apply_stream(run, drv, n_cases):
+    """correspondence for pointwise operations (`_apply_nest`): `lazy.apply(fn)`, `lazy.apply(fn, other)`
+    and the operator spellings, `other` a dense tensordict or a lazy stack along the same dim"""
+    rng = run.rng
+    reqs, metas = [], []
+    for _ in range(n_cases):
+        bs = shapes_for(rng, run.tier)
+        n = rng.randint(1, 4)
+        sd = rng.randint(0, len(bs))
+        feats = rng.choice([G.FEATS_PLAIN, G.FEATS_NESTED])
+        op = rng.choice(["mul3add1", "neg", "twice_plus", "sub", "where_lt"])
+        spelling = rng.choice(["apply", "operator"])
+        other_kind = rng.choice(["dense", "lazy"])
+        if spelling == "operator":
+            # `lazy - dense_td` raises KeyError (the arithmetic of base.py lists the entries member by
+            # member, ('0', 'a'), and looks them up in the operand): lazy-only raise, recorded in the report
+            other_kind = "lazy"
+        fs = Raw("(feats" + "".join(" (" + " ".join([k] + [str(x) for x in f]) + ")" for k, f in feats) + ")")
+        metas.append((bs, n, sd, feats, op, spelling, other_kind))
+        reqs.append(sx("c08.apply", ["bs"] + list(bs), n, sd, fs, Raw(op)))
+    answers = G.ask_all(drv, reqs)
+    for (bs, n, sd, feats, op, spelling, other_kind), a in zip(metas, answers):
+        model = parse_sx(a)
+        case = {"bs": list(bs), "n": n, "sd": sd, "feats": [k for k, _ in feats], "op": op, "spelling": spelling, "other": other_kind}
+        run.case(("apply", bs, n, sd, op, spelling, other_kind, str(feats)))
+        with time_limit(180):
+            L, ms = G.mk_lazy(bs, n, sd, feats)
+            D = G.dense_of(ms, sd)
+            Lo, mso = G.mk_lazy(bs, n, sd, feats)
+            for m in mso:
+                for k, _ in feats:
+                    G.get_leaf(m, k).add_(1000000)
+            Do = G.dense_of(mso, sd)
+            other = Do if other_kind == "dense" else Lo
+
+            def f(x, o):
+                if op == "mul3add1":
+                    return x.apply(lambda t: 3 * t + 1) if spelling == "apply" else x * 3 + 1
+                if op == "neg":
+                    return x.apply(lambda t: -t) if spelling == "apply" else -x
+                if op == "twice_plus":
+                    return x.apply(lambda t, u: 2 * t + u, o) if spelling == "apply" else x * 2 + o
+                if op == "sub":
+                    return x.apply(lambda t, u: t - u, o) if spelling == "apply" else x - o
+                return x.apply(lambda t, u: torch.where(t % 3 == 0, t, u), o)
+            try:
+                r = f(L, other)
+                impl = G.members_canon(r, feats) if isinstance(r, O.LazyStackedTensorDict) else ["ok", "dense"] + G.td_canon(r, feats)
+            except Exception:  # noqa: BLE001
+                r, impl = None, ["err"]
+            try:
+                dr = f(D, Do)
+            except Exception:  # noqa: BLE001
+                dr = None
+        run.corr("apply", case, impl, model)
+        if r is not None and dr is not None:
+            diff = G.same_td(r, dr)
+            if diff:
+                run.oracle_fail("apply", case, f"lazy {op} ({spelling}, {other_kind} operand) differs from dense: {diff}", f"apply:{op}")
+            else:
+                run.oracle_ok("apply")
+        else:
+            run.oracle_ok("apply_raises")
+
+
 def spec_stream(run, drv, n_cases):
     """the Lean index spec (idxShape/idxCoord) against torch itself"""
     rng = run.rng
@@ -644,13 +731,15 @@ def main():
     cat_stream(run, drv, 500 if quick else 6000)
     misc_stream(run, drv, 600 if quick else 6000)
     two_level_stream(run, drv, 500 if quick else 8000)
+    apply_stream(run, drv, 300 if quick else 4000)
     # extended domain: the property's oracle on every supported operation of the real code
-    O.read_ops_stream(run, 800 if quick else 12000)
+    O.read_ops_stream(run, 1200 if quick else 14000)
     O.mut_ops_stream(run, 800 if quick else 12000)
     O.member_write_stream(run, 300 if quick else 4000)
     O.cat_stack_stream(run, 500 if quick else 8000)
     O.stack_of_stacks_stream(run, 500 if quick else 8000)
     O.alias_stream(run, 500 if quick else 8000)
+    O.source_alias_stream(run, 500 if quick else 8000)
     run.finish("proof")
 
 
